@@ -93,6 +93,22 @@ def agp_tpf_agp(spec, nums, strands, **kw):
     return FIN(AND(asm_eq(asm, a2, tags=False), all(r.tags == () for s in a2.scaffolds for r in s.rows if is_frag(r))))
 
 
+def str_rt(fmt, name, ctg, hdr, tag=None, lean=False):
+    """one symbolic string at a time, everything else concrete: format -> parse
+    object equality (re-formatting then reproduces the text, format being a
+    function of the fields)"""
+    START()
+    rows = [Fragment(ctg, 5, 11, 1, (tag,) if (tag is not None and fmt == "agp") else ()), Gap(200, "scaffold"), Fragment("other", 1, 9, -1)]
+    if lean:
+        rows = rows[:1] + rows[2:]
+    asm = Assembly("asm", header=[hdr], scaffolds=[Scaffold(name, rows), Scaffold("zz", [Fragment("q", 1, 3, 1)])])
+    if fmt == "agp":
+        back = p_agp(fmt_agp(asm))
+        return FIN(asm_eq(asm, back))
+    back = p_tpf(fmt_tpf(asm))
+    return FIN(asm_eq(asm, back, tags=False))
+
+
 def count_rows(asm):
     return sum(len(s.rows) for s in asm.scaffolds)
 
@@ -202,8 +218,9 @@ def agp_bad_strand(s0: int, n0: int, x: str) -> bool:
     except Exception:
         return FIN(True)
     rows = [r for s in back.scaffolds for r in s.rows]
-    # parsed: then x was one of the three legal orientation symbols and is kept
-    return FIN(len(rows) == 1 and is_frag(rows[0]) and x in ("+", "-", "?") and "?+-"[rows[0].strand] == x)
+    # parsed (exactly one row): then x, up to the trailing white space the AGP parser strips
+    # by design, was one of the three legal orientation symbols and is kept
+    return FIN(len(rows) == 1 and is_frag(rows[0]) and x.rstrip() in ("+", "-", "?") and "?+-"[rows[0].strand] == x.rstrip())
 
 
 def swapped_coordinates(s0: int, n0: int) -> bool:
@@ -279,22 +296,35 @@ def conditions(tier):
         metas.append((f"tpf_roundtrip_{n}", "tpf_" + n, 300, f"TPF: scaffolds {sp}; coordinates unbounded, strands PLUS/MINUS, no tags; object and text round trips"))
     parts.append(_fn("agp_tpf_agp", "a2t2a", [("scf_1", "FGF"), ("scf_2", "F")], pm_only=True))
     metas.append(("agp_to_tpf_and_back", "a2t2a", 300, "AGP -> TPF -> AGP changes nothing except dropping tags"))
-    # one symbolic string at a time
-    parts.append(_fn("agp_rt", "agp_scfname", [("scf_1", "FG"), ("scf_2", "F")], extra_args="x: str",
-                     extra_pre='1 <= len(x) <= 3 and all(c not in "\\t\\r\\n" for c in x) and x[0] != "#" and x.strip() == x and x != "scf_2"', extra_kw=', names=[x, "scf_2"]'))
-    metas.append(("agp_scaffold_name_symbolic", "agp_scfname", 1200, "AGP scaffold name = symbolic string of 1-3 arbitrary code points (no TAB/CR/LF, not starting with '#', no leading/trailing white space)"))
-    parts.append(_fn("agp_rt", "agp_ctgname", [("scf_1", "FG")], extra_args="x: str",
-                     extra_pre='1 <= len(x) <= 3 and all(c not in "\\t\\r\\n" for c in x)', extra_kw=", ctg=x"))
-    metas.append(("agp_contig_name_symbolic", "agp_ctgname", 1200, "AGP contig name = symbolic string of 1-3 arbitrary code points (no TAB/CR/LF)"))
-    parts.append(_fn("agp_rt", "agp_header", [("scf_1", "F")], extra_args="x: str",
-                     extra_pre='1 <= len(x) <= 3 and all(c not in "\\t\\r\\n" for c in x) and x[0] != "#" and x.strip() == x', extra_kw=', header=(x, "second line")'))
-    metas.append(("agp_header_line_symbolic", "agp_header", 1200, "AGP header line = symbolic string of 1-3 code points (not starting with '#', no surrounding white space)"))
-    parts.append(_fn("tpf_rt", "tpf_ctgname", [("scf_1", "FG")], pm_only=True, extra_args="x: str",
-                     extra_pre='1 <= len(x) <= 5 and all(c in "a:1-" for c in x)', extra_kw=", ctg=x"))
-    metas.append(("tpf_contig_name_symbolic_colon_dash_digits", "tpf_ctgname", 2400, "TPF contig name = symbolic string of 1-5 characters over {a, :, 1, -} (so that names shaped like a:1-1 occur; the name is followed by :<start>-<end>)"))
-    parts.append(_fn("tpf_rt", "tpf_scfname", [("scf_1", "FG"), ("scf_2", "F")], pm_only=True, extra_args="x: str",
-                     extra_pre='1 <= len(x) <= 3 and all(c not in "\\t\\r\\n" for c in x) and x != "scf_2"', extra_kw=', names=[x, "scf_2"]'))
-    metas.append(("tpf_scaffold_name_symbolic", "tpf_scfname", 1200, "TPF scaffold name = symbolic string of 1-3 arbitrary code points (no TAB/CR/LF)"))
+    # one symbolic string at a time (coordinates concrete: tokens inside lines that also hold symbolic characters are too slow)
+    STR = [
+        ("agp_scaffold_name_symbolic", "agp", 'str_rt("agp", x, "ctg", "hdr", lean=True)', '1 <= len(x) <= 3 and "\\t" not in x and "\\n" not in x and "\\r" not in x and x[0] != "#" and x == x.strip() and x != "zz"',
+         "AGP scaffold name = symbolic string of 1-3 ARBITRARY code points (no TAB/CR/LF, not starting with '#', no surrounding white space)"),
+        ("agp_contig_name_symbolic", "agp", 'str_rt("agp", "scf", x, "hdr")', '1 <= len(x) <= 3 and "\\t" not in x and "\\n" not in x and "\\r" not in x',
+         "AGP contig name = symbolic string of 1-3 arbitrary code points (no TAB/CR/LF)"),
+        ("agp_header_line_symbolic", "agp", 'str_rt("agp", "scf", "ctg", x)', '1 <= len(x) <= 3 and "\\t" not in x and "\\n" not in x and "\\r" not in x and x[0] != "#" and x == x.strip()',
+         "AGP header line = symbolic string of 1-3 arbitrary code points"),
+        ("agp_tag_symbolic", "agp", 'str_rt("agp", "scf", "ctg", "hdr", x)', '1 <= len(x) <= 3 and all(not c.isspace() for c in x)',
+         "AGP tag = symbolic string of 1-3 arbitrary non-white-space code points (README: tags are single words)"),
+        ("tpf_scaffold_name_symbolic", "tpf", 'str_rt("tpf", x, "ctg", "hdr", lean=True)', '1 <= len(x) <= 3 and "\\t" not in x and "\\n" not in x and "\\r" not in x and x != "zz"',
+         "TPF scaffold name = symbolic string of 1-3 arbitrary code points (no TAB/CR/LF)"),
+        ("tpf_contig_name_symbolic_colon_dash_digits", "tpf", 'str_rt("tpf", "scf", x, "hdr")', '1 <= len(x) <= 5 and all(c in "a:1-" for c in x)',
+         "TPF contig name = symbolic string of 1-5 characters over {a, :, 1, -} (names shaped like a:1-1 occur; the writer appends :<start>-<end>)"),
+        ("tpf_header_line_symbolic", "tpf", 'str_rt("tpf", "scf", "ctg", x)', '1 <= len(x) <= 3 and "\\t" not in x and "\\n" not in x and "\\r" not in x and x[0] != "#" and x == x.strip()',
+         "TPF header line = symbolic string of 1-3 arbitrary code points"),
+    ]
+    for (nm, fmt, call, pre, bound) in STR:
+        fn = "s_" + nm
+        parts.append(f'''
+
+def {fn}(x: str) -> bool:
+    """
+    pre: {pre}
+    post: _
+    """
+    return {call}
+''')
+        metas.append((nm, fn, 900, bound))
     for nm, to, bound in (("agp_line_corruption", 900, "a column (symbolic index 0..9) deleted from a symbolic line of a canonical 3-line AGP: parsed rows == data lines, or an exception"),
                           ("tpf_line_corruption", 900, "the same for TPF (columns 0..4)"),
                           ("agp_bad_strand", 600, "AGP orientation column = symbolic string of <= 2 code points: error, or exactly the legal symbol kept"),
@@ -308,12 +338,22 @@ def conditions(tier):
     # thorough: tag symbolic, longer strings
     tparts = []
     tmetas = []
-    tparts.append(_fn("agp_rt", "agp_scfname4", [("scf_1", "FG"), ("scf_2", "F")], extra_args="x: str",
-                      extra_pre='1 <= len(x) <= 4 and all(c in "aB_.-1#: " for c in x) and x[0] != "#" and x.strip() == x and x != "scf_2"', extra_kw=', names=[x, "scf_2"]'))
-    tmetas.append(("agp_scaffold_name_len4_alphabet", "agp_scfname4", 3000, "AGP scaffold name of 1-4 characters over {a,B,_,.,-,1,#,:,space}"))
-    tparts.append(_fn("tpf_rt", "tpf_ctgname6", [("scf_1", "FG")], pm_only=True, extra_args="x: str",
-                      extra_pre='1 <= len(x) <= 6 and all(c in "a:1-" for c in x)', extra_kw=", ctg=x"))
-    tmetas.append(("tpf_contig_name_len6", "tpf_ctgname6", 6000, "TPF contig name of 1-6 characters over {a, :, 1, -}"))
+    for (nm, call, pre, bound) in (
+            ("agp_scaffold_name_len4_alphabet", 'str_rt("agp", x, "ctg", "hdr")', '1 <= len(x) <= 4 and all(c in "aB_.-1#: " for c in x) and x[0] != "#" and x == x.strip() and x != "zz"',
+             "AGP scaffold name of 1-4 characters over {a,B,_,.,-,1,#,:,space}"),
+            ("tpf_contig_name_len6", 'str_rt("tpf", "scf", x, "hdr")', '1 <= len(x) <= 6 and all(c in "a:1-" for c in x)', "TPF contig name of 1-6 characters over {a, :, 1, -}"),
+            ("agp_contig_name_len4", 'str_rt("agp", "scf", x, "hdr")', '1 <= len(x) <= 4 and "\\t" not in x and "\\n" not in x and "\\r" not in x', "AGP contig name of 1-4 arbitrary code points")):
+        fn = "s_" + nm
+        tparts.append(f'''
+
+def {fn}(x: str) -> bool:
+    """
+    pre: {pre}
+    post: _
+    """
+    return {call}
+''')
+        tmetas.append((nm, fn, 6000, bound))
     tsrc = HEAD + "".join(tparts) + MALFORMED
     for (n, fn, to, bound) in tmetas:
         out.append(Cond(n, tsrc, fn, to, bound, tier="thorough", encodes=ENC))
